@@ -220,11 +220,11 @@ func genAlias(rng *rand.Rand, i int) (string, interface{}, bool, error) {
 }
 
 func correspondence2(o *hx.Opts, rng *rand.Rand, res *hx.Result, add func(kind, term string, js interface{}, nontrivial bool)) {
-	for i, n := 0, o.Count(200, 4000); i < n; i++ {
+	for i, n := 0, o.Count(200, 2000); i < n; i++ {
 		t, js, nt := genAlloc(rng)
 		add("alloc", t, js, nt)
 	}
-	for i, n := 0, o.Count(80, 2000); i < n; i++ {
+	for i, n := 0, o.Count(80, 800); i < n; i++ {
 		t, js, nt, err := genOAuth(rng, i)
 		if err != nil {
 			res.Count("corr_oauth_error")
@@ -233,7 +233,7 @@ func correspondence2(o *hx.Opts, rng *rand.Rand, res *hx.Result, add func(kind, 
 		}
 		add("oauth", t, js, nt)
 	}
-	for i, n := 0, o.Count(80, 2000); i < n; i++ {
+	for i, n := 0, o.Count(80, 800); i < n; i++ {
 		t, js, nt, err := genAlias(rng, i)
 		if err != nil {
 			res.Count("corr_alias_error")
